@@ -193,6 +193,10 @@ func (b *block) len() int {
 func (b *block) setBase(n int64) {
 	b.base = n
 	b.offset = Offset{File: n}
+	// The data held is that of the member the block was
+	// used for before; it is not the data at n until
+	// readFrom has succeeded.
+	b.buf = nil
 }
 
 func (b *block) NextBase() int64 {
